@@ -11,7 +11,10 @@ NA = [
 ]
 checks = []
 claimed = set()
+allowed = set((pathlib.Path(__file__).parent / "claimed.txt").read_text().split())
 for f in sorted(pathlib.Path(__file__).parent.glob("checks/c[0-9]*.py")):
+    if f.stem.upper() not in allowed:
+        continue
     m = importlib.import_module("checks." + f.stem)
     mf = getattr(m, "MANIFEST", None)
     if not mf:
@@ -24,7 +27,9 @@ for f in sorted(pathlib.Path(__file__).parent.glob("checks/c[0-9]*.py")):
          "level_claimed": {"category": m.LEVEL, "text": mf["text"], "design_ref": mf.get("design_ref", "DESIGN.md section 5")},
          "level_note": mf["note"], "technique": mf["technique"]}
     checks.append(c)
-extra_na = json.loads((pathlib.Path(__file__).parent / "not_built.json").read_text()) if (pathlib.Path(__file__).parent / "not_built.json").exists() else []
+props = [json.loads(l)["id"] for l in (pathlib.Path(__file__).parent / "properties.jsonl").read_text().splitlines() if l.strip()]
+na_ids = {n["property_id"] for n in NA}
+extra_na = [{"property_id": p, "reason": "check not yet registered: it is being built or calibrated (see DESIGN.md section 9); nothing is claimed for it"} for p in props if p not in claimed and p not in na_ids]
 na = [n for n in NA + extra_na if n["property_id"] not in claimed]
 hooks_file = pathlib.Path(__file__).parent / "hooks.json"
 hooks = json.loads(hooks_file.read_text())
